@@ -8,22 +8,22 @@ TECH = 'machine-checked proof in Coq 8.16 (model + theorems) + fail-closed trans
 ORACLES = {
     'C01': 'multi-field requests on one pipeline object in several orders against single-field values',
     'C02': 'multi-field request order; every operand observed before and after composing',
-    'C03': 'key mappings of Join / GroupBy / Split computed once per pipeline object; HashDigest executes exactly what get_hash executes',
+    'C03': 'key mappings of Join / GroupBy / Split computed once per pipeline object; HashDigest executes exactly what get_hash executes; one and two cached columns: no function twice per call beyond findings F9 / F10; a decorated function runs once per call',
     'C04': 'every call of every history against the cache-free pipeline, column-cache histories and id-order variants included',
     'C05': 'families of dataset pipelines differing in one ingredient: equal node-hash digests mean equal values',
     'C06': 'families of sub-pipeline variants: equal static hashes / node-hash digests mean equal functions / values',
-    'C07': 'digests of a field and of ids under 13 neutral rewrites in 3 interpreters',
-    'C08': 'table sizes and recency after every operation; key mappings computed once',
+    'C07': 'digests of a field and of ids under 14 neutral rewrites in 3 interpreters; a column cache is found again by a rebuilt pipeline whose dataset lists its ids in another order',
+    'C08': 'table sizes and recency after every operation (stored None values and pickle round trips included); key mappings computed once; a column-cache hit runs nothing; column caches found again by a rebuilt pipeline',
     'C09': 'operands unchanged by composing; instances of one class independent; every bracketing gives the same pipeline',
     'C10': 'the three entry points agree; every function, the decorated one included, runs once per call',
-    'C11': 'every 2-thread schedule of bounded length (column caches included) gives the sequential results; tables touched under their lock only',
+    'C11': 'every 2-thread schedule of bounded length (column caches included) gives the sequential results; tables touched and replaced under their lock only; first calls of two threads raced at line granularity',
     'C12': 'every crash point x fault set: later processes return the cache-free values, recompute at most once, store again',
     'C13': 'the accept / reject outcome does not depend on how the same layers are combined or reused',
     'C14': 'owner-only evaluation; hash-collision families', 'C15': 'other fields untouched; a Filter object follows the dataset it is connected to; hash-collision families',
     'C16': 'no field value (not even None) for an id outside the join; hash-collision families', 'C17': 'key mappings computed once; hash-collision families',
     'C18': 'the error is repeatable; targeted optional chains ending in caches',
     'C19': 'signature, graph, entry counts, cache objects, values, digests and failures of copy and original',
-    'C20': 'Python-level call counts of build, compile and call on stacks of growing depth',
+    'C20': 'Python-level call counts of build, compile and call on stacks of growing depth; CPU time of repeated cached calls on deep stacks',
 }
 CLAIMS = {
     'C01': ('Theorems over all DAG shapes and arbitrary generator trees: the stack machine simulates a recursive evaluator (Sim.v), '
@@ -146,7 +146,7 @@ def main():
                                        'property theorems (Props/), generated case shards (Run/)'}],
         'checks': [], 'not_applicable': [],
         'notes': 'Six unguarded "fix:" commits in /repo (F2 624b02f, F1 155c61c, F4a 7524fb1, F8-truncation a19c1d0, F6 4bbd446, F5 2f0c7d8) and the '
-                 'known findings F3, F4b, F8 are recorded in known_findings.json; see DESIGN.md sections 7 and 11.',
+                 'known findings F3, F4b, F8, F9, F10 are recorded in known_findings.json; see DESIGN.md sections 7 and 11.',
     }
     for p in props:
         pid = p['id']
